@@ -96,11 +96,13 @@ def min_over(points, lo, hi, base_at):
 def analyse(text, label):
     other, per = conc.parse_dump(text)
     fails, traces = [], []
-    rounds, stuck, unfired, multi = {}, [], [], []
+    rounds, stuck, unfired, multi, finals = {}, [], [], [], {}
     for l in other:
         f = l.split()
         if f[0] == "R":
             rounds[int(f[1])] = (int(f[2]), int(f[3]))
+        elif f[0] == "Q":
+            finals[int(f[1])] = (int(f[2]), int(f[3]))
         elif f[0] == "STUCK":
             stuck.append((int(f[1]), int(f[2]), int(f[3]), f[4]))
         elif f[0] == "UNFIRED":
@@ -295,12 +297,264 @@ def analyse(text, label):
                               "what": "thread %d still blocked in %s after 4 s without any progress (%s): a waiter was left "
                                       "behind" % (k, {31: "dispatch_group_wait(FOREVER)", 32: "dispatch_group_wait(timed)",
                                                       30: "dispatch_group_wait(NOW)"}.get(op, "op %d" % op), why)})
-    return fails, traces, st, bool(stuck)
+    return fails, traces, st, bool(stuck), finals
+
+
+INV_PERIOD = 20
+
+def round_order(thr, limit=400000):
+    """preferred global order of one round: the list of thread ids, one per event, in which GroupR.sched is asked to run the
+    round.  It is found by a depth-first search on a sketch of the shared state (dg_state, dg_notify_tail, who sleeps), with the
+    recorder's tickets as the preference and backtracking where the ticket order is ambiguous (the word returns to an earlier
+    value and two threads have an operation enabled on it).  Pure observations of the word (loads, failed CAS) are taken as soon
+    as they are enabled.  FUTEX_WAKE: its note is written before the system call, so the wake takes effect between the note and
+    the thread's next event; a futex_wait that returned 0 needs a wake after its own note: when no wake note lies in between, the
+    most recent earlier wake still in flight is moved to just after the sleeper's note.
+    The search only proposes an order: every step is checked by the model in Coq, a wrong proposal can only make the replay fail."""
+    import bisect
+    M32, M64 = 0xffffffff, (1 << 64) - 1
+    wakes, rets, stamp, deps = [], [], {}, {}
+    th = {tid: t for (tid, t, _) in thr}
+    for tid, t in th.items():
+        wnote = None
+        for j, c in enumerate(t):
+            k = c.e.kind
+            stamp[(tid, j)] = c.e.seq
+            if k == 34:
+                wakes.append({"key": (tid, j), "note": c.e.seq, "next": t[j + 1].e.seq if j + 1 < len(t) else float("inf")})
+            elif k == 32:
+                wnote = (c.e.seq, j)
+            elif k == 33 and c.e.b == 0 and wnote is not None:
+                rets.append((wnote[0], c.e.seq, tid, wnote[1]))
+    wakes.sort(key=lambda w: w["note"])
+    notes = [w["note"] for w in wakes]
+    for (w0, r0, xt, xj) in rets:
+        hi = bisect.bisect_left(notes, r0)          # wakes with note < r0
+        lo = bisect.bisect_right(notes, w0)         # wakes with note <= w0
+        chosen = None
+        if hi > lo:
+            chosen = wakes[lo]                       # the first wake noted while the sleeper was in futex_wait
+        else:
+            for k in range(lo - 1, -1, -1):          # else the most recent earlier wake that was still in flight
+                if wakes[k]["next"] > w0:
+                    chosen = wakes[k]
+                    stamp[chosen["key"]] = max(stamp[chosen["key"]], w0 + 0.5)
+                    break
+        if chosen is not None:                       # that wake takes effect after the sleeper's futex_wait note
+            deps.setdefault(chosen["key"], []).append((xt, xj))
+    fallback = [tid for (_, tid) in sorted((stamp[(tid, j)], tid) for tid, t in th.items() for j in range(len(t)))]
+
+    def cls(e):
+        """(class, location): class m = modifies, o = observes, a = always enabled, r = futex return"""
+        k, off, grp = e.kind, e.off, e.obj < NQ_BASE
+        if not grp:
+            return "a", None
+        if off == 0 and k in (6, 7):
+            return "m", "w"
+        if off == 0 and k in (4, 5):
+            return ("m" if e.ok & 1 else "o"), "w"
+        if off == 0 and k == 1:
+            return "o", "w"
+        if off == 4 and k == 1:
+            return "o", "g"
+        if off == 16 and k == 3:
+            return "m", "t"
+        if k == 33:
+            return "r", None
+        return "a", None
+
+    def enabled(e, c, loc, cur, tail, sl):
+        if c == "a":
+            return True
+        if c == "r":
+            return (e.b != 0 or sl == "W") and (sl != "N" or e.b == 11)
+        if loc == "w":
+            return e.a == ((cur & M32) if e.kind == 7 else cur)
+        if loc == "g":
+            return e.a == (cur >> 32)
+        return e.a == tail
+
+    tids = sorted(th)
+    pos = {t: 0 for t in tids}
+    slp = {t: "A" for t in tids}
+    cur, tail, order, steps = 0, 0, [], 0
+    stack = []                       # choice points: (alternatives left, saved state)
+    total = sum(len(t) for t in th.values())
+
+    def apply(tid):
+        nonlocal cur, tail
+        e = th[tid][pos[tid]].e
+        c, loc = cls(e)
+        if c == "m":
+            if loc == "w":
+                if e.kind == 7:
+                    cur = (cur & ~M32 & M64) | ((e.a - e.b) & M32)
+                elif e.kind == 6:
+                    cur = (e.a + e.b) & M64
+                else:
+                    cur = e.b
+            else:
+                tail = e.b
+        elif e.obj < NQ_BASE and e.kind == 32:
+            slp[tid] = "S" if (cur >> 32) == e.a else "N"
+        elif e.obj < NQ_BASE and e.kind == 34:
+            for u in tids:
+                if slp[u] == "S":
+                    slp[u] = "W"
+        elif c == "r":
+            slp[tid] = "A"
+        pos[tid] += 1
+        order.append(tid)
+
+    while len(order) < total:
+        steps += 1
+        if steps > limit:
+            return fallback, False
+        cands = []
+        for t in tids:
+            if pos[t] < len(th[t]):
+                e = th[t][pos[t]].e
+                c, loc = cls(e)
+                if enabled(e, c, loc, cur, tail, slp[t]) and all(pos[x] > xj for (x, xj) in deps.get((t, pos[t]), ())):
+                    cands.append((stamp[(t, pos[t])], t, c, loc))
+        obs = [x for x in cands if x[2] == "o"]
+        if obs:
+            apply(min(obs)[1])
+            continue
+        if cands:
+            first = min(cands)
+            if first[2] == "m":
+                alts = sorted(x for x in cands if x[2] == "m" and x[3] == first[3])
+                if len(alts) > 1:
+                    stack.append(([x[1] for x in alts[1:]], (cur, tail, dict(pos), dict(slp), len(order))))
+            apply(first[1])
+            continue
+        # dead end: back to the last choice point that has an alternative left
+        while stack and not stack[-1][0]:
+            stack.pop()
+        if not stack:
+            return fallback, False
+        alts, (cur, tail, p0, s0, n0) = stack[-1]
+        pos, slp = dict(p0), dict(s0)
+        del order[n0:]
+        apply(alts.pop(0))
+    return order, True
+
+
+def coq_rounds(name, alltr, allfin, chunk_events=14000, workers=4, timeout=900):
+    """alltr: list of (sv, [CEv], round, thread, seed).  One Coq file per chunk of rounds: Group.conform on every thread trace and,
+    for every round, GroupR.replay of the whole round on the global model (all threads' events executed on Group.gstep in the
+    order of the recorder's stamps).  Returns (conformance results aligned with alltr, dict(mismatches, counts))."""
+    import re
+    from concurrent.futures import ThreadPoolExecutor
+    byround = {}
+    for idx, (sv, t, rd, thr, seed) in enumerate(alltr):
+        byround.setdefault((seed, rd), []).append((thr + 1, t, idx))
+    keys = sorted(byround)
+    chunks, cur, n = [], [], 0
+    for k in keys:
+        ne = sum(len(t) for (_, t, _) in byround[k])
+        if cur and n + ne > chunk_events:
+            chunks.append(cur)
+            cur, n = [], 0
+        cur.append(k)
+        n += ne
+    if cur:
+        chunks.append(cur)
+
+    def one(arg):
+        ci, part = arg
+        nums, combos = {}, {}
+
+        def z(x):
+            if 0 <= x < 256:
+                return str(x)
+            if x < 0:
+                return "(%d)" % x
+            if x not in nums:
+                nums[x] = "k%d" % len(nums)
+            return nums[x]
+
+        def ev(c):
+            e = c.e
+            ok = (e.ok & 1) if c.ok is None else c.ok
+            key = (e.kind, e.order, e.off, e.size, ok)
+            if key not in combos:
+                combos[key] = "e%d" % len(combos)
+            return "%s %s %s" % (combos[key], z(e.a), z(e.b))
+        defs, calls = [], []
+        for k, key in enumerate(part):
+            thr = byround[key]
+            qs = ["(%s, [%s])" % (z(tid), "; ".join(ev(c) for c in t)) for (tid, t, _) in thr]
+            order, found = round_order(thr)
+            defs.append("Definition qs%d : queues := [%s]." % (k, ";\n".join(qs)))
+            defs.append("Definition ord%d : list Z := [%s]." % (k, "; ".join(z(tid) for tid in order)))
+            calls.append("Eval vm_compute in concat (map (fun q => let '(i, d) := conform (snd q) in [i; d]) qs%d)." % k)
+            calls.append("Eval vm_compute in replay inv_b %d qs%d ord%d." % (INV_PERIOD, k, k))
+        body = ["Definition %s : Z := %d." % (nm, x) for x, nm in nums.items()]
+        body += ["Definition %s (a b : Z) := mkEv %d %d 0 %d %d a b %d." % (nm, kk[0], kk[1], kk[2], kk[3], kk[4])
+                 for kk, nm in combos.items()]
+        ok, vals, raw = driver.coq_eval("%s_%d" % (name, ci), ["Word", "Conc", "Gen_group", "Group", "GroupR", "GroupR_inv"],
+                                        "\n".join(body + defs + calls) + "\n", timeout=timeout)
+        if not ok or len(vals) != 2 * len(part):
+            raise RuntimeError("coq round evaluation failed: " + raw[-2500:])
+        return [(key, driver.ints(vals[2 * k]), driver.ints(vals[2 * k + 1])) for k, key in enumerate(part)]
+    res = [None] * len(alltr)
+    counts = {"rounds_total": len(keys), "rounds_replayed_on_global_model": 0, "rounds_not_replayed_trace_rejected": 0,
+              "rounds_not_replayed_stuck_run": 0, "events_replayed_on_global_model": 0, "replayed_rounds_with_early_notification": 0,
+              "invariant_evaluations_false": 0}
+    mism = []
+    with ThreadPoolExecutor(max_workers=workers) as ex:
+        results = [x for part in ex.map(one, list(enumerate(chunks))) for x in part]
+    for key, conf, rp in results:
+        thr = byround[key]
+        allok = True
+        for j, (tid, t, idx) in enumerate(thr):
+            res[idx] = (conf[2 * j], conf[2 * j + 1])
+            if conf[2 * j] != -1 or conf[2 * j + 1] != 1:
+                allok = False
+        if not allok:
+            counts["rounds_not_replayed_trace_rejected"] += 1
+            continue
+        nev = sum(len(t) for (_, t, _) in thr)
+        (done, left, word, gens, outst, nreg, nql, idle, noslp, fired, early, bad, chk_end, stuck_tid) = rp[:14]
+        remaining = rp[14:]
+        fin = allfin.get(key)
+        problems = []
+        if left != 0 or done != nev:
+            blocked = []
+            for (tid, t, _), rem in zip(thr, remaining):
+                if rem:
+                    blocked.append({"thread": tid - 1, "next_event": t[len(t) - rem].brief(), "events_left": rem,
+                                    "before": [c.brief() for c in t[max(0, len(t) - rem - 3):len(t) - rem]]})
+            problems.append({"first_unmatched": blocked[:24], "model_dg_state": word, "model_generations": gens,
+                             "model_outstanding": outst, "executed": done, "of": nev})
+        elif fin is None:
+            counts["rounds_not_replayed_stuck_run"] += 1     # the run ended in the watchdog: reported by the oracle
+            continue
+        else:
+            if word != fin[0] or nreg != fin[1] or not idle or not noslp or outst != 0 or nql != 0:
+                problems.append({"final_state": {"model_dg_state": word, "recorded_dg_state": fin[0], "model_registered": nreg,
+                                                 "recorded_registered": fin[1], "all_idle": idle, "nobody_asleep": noslp,
+                                                 "outstanding": outst, "list_length": nql}})
+        if bad != -1 or not chk_end:
+            counts["invariant_evaluations_false"] += 1
+            problems.append({"invariant_false_after_step": bad, "invariant_on_final_state": chk_end})
+        if problems:
+            mism.append({"what": "a recorded round is not a run of the global model (Group.gstep): " +
+                                 ("an event is never enabled with the recorded outcome" if left else
+                                  "the model does not end in the recorded final state / an invariant clause evaluates to false"),
+                         "detail": {"seed": key[0], "round": key[1], "problems": problems}})
+        else:
+            counts["rounds_replayed_on_global_model"] += 1
+            counts["events_replayed_on_global_model"] += nev
+            counts["replayed_rounds_with_early_notification"] += early
+    return res, {"mismatches": mism[:10], "counts": counts}
 
 
 def correspond(ctx):
     nseeds, rounds = (3, 36) if ctx.tier == "quick" else (24, 120)
-    fails, mism, alltr, total, notes = [], [], [], {}, []
+    fails, mism, alltr, total, notes, allfin = [], [], [], {}, [], {}
     # fixed corpus first: the deterministic witness of the notify-early defect found on the unchanged tree
     for v in (0, 1):
         early, out = run_early(v)
@@ -319,9 +573,11 @@ def correspond(ctx):
         seed = ctx.seed * 1000 + i
         permille = [0, 150, 400][i % 3]
         text = run_harness(ctx, seed, rounds, permille)
-        f, tr, st, was_stuck = analyse(text, "seed%d" % seed)
+        f, tr, st, was_stuck, fin = analyse(text, "seed%d" % seed)
         fails += f
         alltr += [(sv, t, rd, thr, seed) for (sv, t, rd, thr) in tr]
+        for rd, v in fin.items():
+            allfin[(seed, rd)] = v
         for k, v in st.items():
             total[k] = total.get(k, 0) + v
     # a trace longer than this cannot come from the scripts of the harness (a thread spinning inside the library): it is
@@ -332,8 +588,7 @@ def correspond(ctx):
     for (sv, t, rd, thr, seed) in toolong[:5]:
         mism.append({"what": "a recorded thread trace has %d events inside one round (a thread spinning inside the library)" % len(t),
                      "detail": {"seed": seed, "round": rd, "thread": thr, "trace_tail": [e.brief() for e in t[-12:]]}})
-    res = conc.coq_conform("c07_conf", ["Word", "Conc", "Gen_group", "Group"], "(fun (_ : Z) tr => conform tr)",
-                           [(sv, t) for (sv, t, _, _, _) in alltr], chunk=300)
+    res, rep = coq_rounds("c07_rounds", alltr, allfin)
     for (i, idle), (sv, t, rd, thr, seed) in zip(res, alltr):
         if i != -1 or idle != 1:
             lo = max(0, i - 12) if i >= 0 else max(0, len(t) - 20)
@@ -341,6 +596,8 @@ def correspond(ctx):
                                  "(Group.tstep): the implementation took a step the model does not have",
                          "detail": {"seed": seed, "round": rd, "thread": thr, "rejected_at": i, "ended_idle": idle,
                                     "trace_window": [e.brief() for e in t[lo:lo + 30]]}})
+    mism += rep["mismatches"]
+    total.update(rep["counts"])
     distinct = len(set(tuple((e.e.kind, e.e.off, e.e.ok & 1) for e in t) for (_, t, _, _, _) in alltr))
     samples = [{"trace": [e.brief() for e in t][:60]} for (_, t, _, _, _) in alltr[:2]]
     slept = [x for x in alltr if any(e.e.kind == 32 for e in x[1])][:2]
@@ -376,7 +633,7 @@ def replay(ctx, obj):
             continue
         seed = int(lab.replace("seed", "")) if lab.startswith("seed") else 1
         text = run_harness(ctx, seed, 36, [0, 150, 400][seed % 3])
-        f2, _, _, _ = analyse(text, lab)
+        f2, _, _, _, _ = analyse(text, lab)
         print("re-run with seed %d: %d failures" % (seed, len(f2)))
         for x in f2[:5]:
             print("  ", x["what"])
